@@ -114,6 +114,11 @@ type Dechunker struct {
 	Err        error
 	// Strict makes the three violations listed by property C02 errors.
 	Strict bool
+	// QuirkExtAbsolute reproduces the reading SRS-family servers chose for the extended timestamp
+	// field: whenever it is present its value is taken as the message's absolute timestamp (also
+	// for type 1/2 headers, where the specification defines it as a delta, and for type 3 chunks).
+	// Used only to classify a known deviation, never as the oracle.
+	QuirkExtAbsolute bool
 }
 
 func NewDechunker() *Dechunker {
@@ -210,17 +215,23 @@ func (d *Dechunker) one(p []byte) int {
 	if format == 0 {
 		ns.sid = binary.LittleEndian.Uint32(h[7:11])
 	}
+	var ev uint32
 	if ns.ext {
 		if len(p) < n+4 {
 			return 0
 		}
-		ev := binary.BigEndian.Uint32(p[n : n+4])
+		ev = binary.BigEndian.Uint32(p[n : n+4])
 		n += 4
 		if format <= 2 {
 			field = ev
 		}
 	}
-	if first {
+	if first && ns.ext && d.QuirkExtAbsolute {
+		if format <= 2 {
+			ns.delta = 0xffffff
+		}
+		ns.ts = ev & 0x7fffffff
+	} else if first {
 		switch format {
 		case 0:
 			ns.ts, ns.delta = field, field
@@ -283,6 +294,25 @@ type sendState struct {
 	extVal uint32
 	left   []byte // rest of the message in flight
 	inMsg  bool
+}
+
+// Clone copies the chunker state (payload slices are shared, they are never modified).
+func (c *Chunker) Clone() *Chunker {
+	n := &Chunker{ChunkSize: c.ChunkSize, cs: map[uint32]*sendState{}}
+	for k, v := range c.cs {
+		cp := *v
+		n.cs[k] = &cp
+	}
+	return n
+}
+
+// Seen reports whether csid has carried a chunk before.
+func (c *Chunker) Seen(csid uint32) bool { return c.st(csid).seen }
+
+// Prev returns the previous header values of csid (timestamp, delta).
+func (c *Chunker) Prev(csid uint32) (ts, delta, length uint32, typ uint8, sid uint32) {
+	s := c.st(csid)
+	return s.ts, s.delta, s.length, s.typ, s.sid
 }
 
 func NewChunker() *Chunker { return &Chunker{ChunkSize: 128, cs: map[uint32]*sendState{}} }
